@@ -57,21 +57,46 @@ type plan struct {
 // plans: quick = every program of length 2 over the full alphabet; thorough adds length 3 with the reduced
 // alphabet at the later positions (everywhere), at the first position too (primary configurations) and
 // full x full x reduced on the first configuration.
+// plans: quick = every program of length 2 over the full alphabet and of length 3 over the reduced one;
+// thorough adds length 3 with the reduced alphabet at the later positions (everywhere), at the first position
+// too (primary configurations), full x full x reduced on the first configuration, and length 4 over the
+// reduced alphabet on the primary ones.
 func plans(tier string, primary, first bool) []plan {
 	full, core := alphabet(), coreAlphabet()
-	p := []plan{{"L2", [][]instr{full, full}}}
+	p := []plan{{"L2", [][]instr{full, full}}, {"L3ccc", [][]instr{core, core, core}}}
 	if tier == "quick" {
 		return p
 	}
 	p = append(p, plan{"L3fcc", [][]instr{full, core, core}})
 	if primary {
-		p = append(p, plan{"L3cfc", [][]instr{core, full, core}})
+		p = append(p, plan{"L3cfc", [][]instr{core, full, core}}, plan{"L4cccc", [][]instr{core, core, core, core}})
 	}
 	if first {
 		p = append(p, plan{"L3ffc", [][]instr{full, full, core}})
 	}
 	return p
 }
+
+// initsFor: which initial register files a plan explores on a configuration.
+func initsFor(tier string, primary bool, pl string) []int {
+	switch {
+	case tier == "quick" && pl == "L3ccc" && primary:
+		return []int{0, 2, 3}
+	case tier == "quick" && pl == "L3ccc":
+		return []int{0}
+	case tier == "quick" && primary:
+		return []int{0, 1, 2, 3, 4, 5, 6}
+	case tier == "quick":
+		return []int{0, 2, 5}
+	case pl == "L4cccc":
+		return []int{0, 2}
+	case primary:
+		return []int{0, 1, 2, 3, 4, 5, 6}
+	}
+	return []int{0, 1, 2, 3, 5, 6}
+}
+
+const chunk = 16 // first-position instructions per scenario (many scenarios of similar size)
 
 func scenarios(tier string) []engine.Scenario {
 	var scs []engine.Scenario
@@ -108,18 +133,15 @@ func scenarios(tier string) []engine.Scenario {
 		primary := ci == 0 || cf.Name == "std4-s80-P2" || cf.Name == "ci4-s45-P1"
 		for _, pl := range plans(tier, primary, ci == 0) {
 			pl := pl
-			names, groups := opGroups(pl.pos[0])
-			for init := range initNames {
+			for _, init := range initsFor(tier, primary, pl.name) {
 				init := init
-				if !primary && init == 4 {
-					continue // the degree-2 operand file is explored on the primary configurations
-				}
-				if tier == "quick" && !primary && init != 0 && init != 2 {
-					continue // quick: secondary configurations start from the equal-scales and the rescaled-operand files only
-				}
-				for _, g := range names {
-					first := groups[g]
-					name := fmt.Sprintf("%s/%s/init-%s/first-%s", cf.Name, pl.name, initNames[init], g)
+				for lo := 0; lo < len(pl.pos[0]); lo += chunk {
+					hi := lo + chunk
+					if hi > len(pl.pos[0]) {
+						hi = len(pl.pos[0])
+					}
+					first := pl.pos[0][lo:hi]
+					name := fmt.Sprintf("%s/%s/init-%s/first-%03d", cf.Name, pl.name, initNames[init], lo)
 					scs = append(scs, engine.Scenario{Name: name, Bound: -1, Fn: func(c *engine.Chooser) {
 						runProgram(c, get(c), name, init, first, pl.pos[1:])
 					}})
@@ -192,7 +214,7 @@ func main() {
 				"auxiliary-primes=0", "auxiliary-primes=1", "auxiliary-primes=2", "packing=sparse", "packing=full", "slots=1", "slots=2", "slots=4", "slots=8", "slots=16",
 				"scales=equal", "scales=ratio-integer", "scales=ratio-non-integer", "scalar-path=gaussian-integer", "scalar-path=non-integer",
 				"mta-scale-up=integer-ratio", "mta-scale-up=equal", "mta-const=equal-scales", "mta-const=acc-scale-larger",
-				"oracle=tight", "decoder=reused", "plan=spine", "dest=inplace", "dest=new", "dest=out", "dest=acc", "setscale=non-integer-ratio", "rescaleto=levels-0", "rescaleto=levels-1"}
+				"oracle=tight", "decoder=reused", "plan=spine", "dest=inplace", "dest=new", "dest=out", "dest=acc", "dest=reused", "setscale=non-integer-ratio", "rescaleto=levels-0", "rescaleto=levels-1"}
 			seen := map[string]bool{}
 			for _, i := range alphabet() {
 				if !seen["op="+i.op] {
